@@ -5,6 +5,7 @@ import BumpverVerif.Driver.Common
 import BumpverVerif.Model.V2Patterns
 import BumpverVerif.Model.V2Version
 import BumpverVerif.Model.PatWf
+import BumpverVerif.Model.PepTree
 open Lean
 namespace BV.Drv
 
@@ -114,6 +115,32 @@ def handleV2 : Handler := fun op j =>
           | none => false
         Json.mkObj [("tokenized", Json.bool true), ("compile_eq", Json.bool ceq), ("render_eq", Json.bool req),
                     ("wf", Json.bool t.wfTop), ("in_domain", Json.bool inDom), ("anchored", Json.bool anchored),
+                    ("theorem_instance", Json.bool thm)])
+  | "pep_tie" => some do
+    -- C15 on the pattern tree: does the tree-level conversion agree with the string surgery on this pattern, and is the (pattern,
+    -- record) pair inside the domain of C15_derived_accepts_of_original?  If so the theorem's conclusion is evaluated too.
+    let p ← getStr j "pattern"
+    let vi ← getVinfo j "vinfo"
+    let today ← (match j.getObjVal? "today" with | .ok _ => getDate j "today" | .error _ => pure (2026, 9, 29))
+    pure (match tokenize p with
+      | none => Json.mkObj [("tokenized", Json.bool false)]
+      | some t =>
+        let q := t.toPep
+        let inDom := t.vok vi && pepReady vi && t.tagGuarded && q.wfTop && q.calAnchored
+        let thm := match q.compile with
+          | some r =>
+            (match reMatch r (q.render vi) with
+             | some m => m.start == 0 && m.stop == (q.render vi).length
+             | none => false) &&
+            (match parseWithRe r (q.render vi) today with
+             | .ok v' => q.agree vi v' && q.render v' == q.render vi
+             | .error _ => false)
+          | none => false
+        let reqStr := match formatVersion vi (convertToPep440 p) with
+          | .ok s => s == q.render vi
+          | .error _ => false
+        Json.mkObj [("tokenized", Json.bool true), ("tie", Json.bool (pepTie p)), ("render_eq", Json.bool reqStr),
+                    ("in_domain", Json.bool inDom), ("normal", Json.bool q.pepNormal),
                     ("theorem_instance", Json.bool thm)])
   | "parse" => some do
     let v ← getStr j "version"
